@@ -1036,6 +1036,34 @@ def run_format(ctx, key, n, do_corr=True):
         lcls.append(cls)
     if do_corr:
         ctx.corr(f"load-spec:{key}", lreq, limp, None, lcls)
+        truncations(ctx, key, [(fm["load"](m), raw) for (m, _), raw in zip(ms, raws)])
+
+
+def truncations(ctx, key, files):
+    """the Lean readers are total functions on arbitrary line lists: on every line truncation of a few generated files the
+    model's outcome class (loaded / LoadError) must be the implementation's"""
+    req, imp, cls = [], [], []
+    budget = ctx.n(60, 600)
+    for sub, raw in files[: ctx.n(4, 30)]:
+        lines = raw.split(b"\n")
+        cuts = list(range(len(lines)))
+        if len(cuts) > 25:
+            cuts = sorted(ctx.rng.sample(cuts, 25))
+        for c in cuts:
+            if len(req) >= budget:
+                break
+            part = b"\n".join(lines[:c]) + (b"\n" if c else b"")
+            for variant, data in (("line", part), ("mid", part + lines[c][: len(lines[c]) // 2] if c < len(lines) else part)):
+                if not data:
+                    continue  # (an empty payload is not expressible in the line protocol)
+                r = F.real_load(data, {"glog": "gaussianlog", "crd": "charmm"}.get(sub, sub))
+                req.append(f"fmtr load {sub} {data.hex()}")
+                imp.append("ok" if r.ok else "err " + r.err)
+                cls.append(f"{sub}/{variant}/{'ok' if r.ok else r.err}")
+    if req:
+        outs = ctx.driver(req)
+        # compare classes only: the loaded values of intact files are compared by load-spec
+        ctx.corr(f"load-truncated:{key}", req, [i if i.startswith("err") else o if o.startswith("ok") else "ok" for i, o in zip(imp, outs)], None, cls)
 
 
 def correspond(ctx):
@@ -1060,13 +1088,20 @@ CORPUS = [("glog", "glog", "water_sto3g_hf_g03.log"), ("vasp", "chgcar", "CHGCAR
 
 
 def search(ctx):
+    from . import _tokens
+
     if ctx.escalated:
         for key, fm in FORMATS.items():
             run_format(ctx, key, ctx.n(*fm["n"]) * 3, do_corr=False)
+    _tokens.search(ctx)  # exploration: log parsers without a published layout
 
 
 def replay(ctx, obj):
+    from . import _tokens
+
     inp = obj["input"]
+    if inp.get("kind") == "tokens":
+        return _tokens.replay(ctx, obj)
     if inp.get("kind") == "readers":
         fm = FORMATS[inp["format"]]
         return fm["impl"](bytes.fromhex(inp["hex"]), inp["expect"], {"kind": inp.get("sub")}) != inp["expect"]
